@@ -21,8 +21,9 @@ RESIZE_AUDITED = {
 }
 
 
-def norm(e, subst):
-    """structural string of an expression with substitutions {predicate: name}"""
+def norm(e, subst, syms=None, depth=0):
+    """structural string of an expression with substitutions {predicate: name}; syms (local id -> defining expression
+    of a single-assignment local) lets helper variables like `actual_size = blobActualSize(size)` stand for their value"""
     e = strip(e)
     for pred, name in subst:
         if pred(e):
@@ -31,17 +32,21 @@ def norm(e, subst):
     if k == "Int":
         return str(e.get("v"))
     if k == "Ref":
+        if syms and e.get("rk") == "local" and e.get("id") in syms and depth < 10:
+            d = strip(syms[e["id"]])
+            if d.get("k") not in ("Call", "Cond"):
+                return norm(d, subst, syms, depth + 1)
         return e["n"]
     if k == "Bin":
-        return "(%s%s%s)" % (norm(e["x"], subst), e["op"], norm(e["y"], subst))
+        return "(%s%s%s)" % (norm(e["x"], subst, syms, depth), e["op"], norm(e["y"], subst, syms, depth))
     if k == "Un":
-        return "%s(%s)" % (e["op"], norm(e["e"], subst))
+        return "%s(%s)" % (e["op"], norm(e["e"], subst, syms, depth))
     if k == "Call":
-        return "%s(%s)" % (e.get("callee"), ",".join(norm(a, subst) for a in e["a"]))
+        return "%s(%s)" % (e.get("callee"), ",".join(norm(a, subst, syms, depth) for a in e["a"]))
     if k == "Member":
-        return norm(e["b"], subst) + "." + e["f"]
+        return norm(e["b"], subst, syms, depth) + "." + e["f"]
     if k == "Index":
-        return "%s[%s]" % (norm(e["b"], subst), norm(e["i"], subst))
+        return "%s[%s]" % (norm(e["b"], subst, syms, depth), norm(e["i"], subst, syms, depth))
     return "<%s>" % k
 
 
@@ -76,8 +81,9 @@ def check_who_may_free(prog, res):
 class WipeClient(ir.Client):
     """state: tuple of normalised (ptr, len) pairs wiped so far"""
 
-    def __init__(self, report):
+    def __init__(self, report, syms=None):
         self.report = report
+        self.syms = syms
 
     def init(self, func):
         return ()
@@ -86,7 +92,7 @@ class WipeClient(ir.Client):
         for c in ir.calls(e):
             cn = c.get("callee")
             if cn == "memWipe":
-                st = tuple(sorted(set(st) | {(norm(c["a"][0], ()), norm(c["a"][1], ()))}))
+                st = tuple(sorted(set(st) | {(norm(c["a"][0], (), self.syms), norm(c["a"][1], (), self.syms))}))
             elif cn == "memFree":
                 self.report(c, st, node)
         for l, rhs, op in ir.assigned_vars(e):
@@ -106,7 +112,9 @@ def check_blobclose(prog, res):
     allocs = [c for c in ir.calls(cr.body) if c.get("callee") == "memAlloc"]
     if len(allocs) != 1:
         raise AnalysisBroken("blobCreate: expected exactly one memAlloc call, found %d" % len(allocs))
-    alloc_norm = norm(allocs[0]["a"][0], [(lambda e: e.get("k") == "Ref" and e.get("id") == size_p, "SIZE")])
+    from . import vp
+    cr_syms, rz_syms, cl_syms = vp.single_assign_syms(cr), vp.single_assign_syms(rz), vp.single_assign_syms(f)
+    alloc_norm = norm(allocs[0]["a"][0], [(lambda e: e.get("k") == "Ref" and e.get("id") == size_p, "SIZE")], cr_syms)
     # header store *ptr = size and return ptr + 1
     hdr_store = any(n.get("k") == "Bin" and n["op"] == "=" and strip(n["x"]).get("k") == "Un" and strip(n["x"])["op"] == "*"
                     and strip(n["y"]).get("k") == "Ref" and strip(n["y"])["id"] == size_p for n in walk(cr.body))
@@ -119,7 +127,7 @@ def check_blobclose(prog, res):
     # blobResize must keep the header in step and realloc with the same rounding
     rsz_p = rz.params[1]["id"]
     reallocs = [c for c in ir.calls(rz.body) if c.get("callee") == "memRealloc"]
-    ok = len(reallocs) == 1 and norm(reallocs[0]["a"][1], [(lambda e: e.get("k") == "Ref" and e.get("id") == rsz_p, "SIZE")]) == alloc_norm
+    ok = len(reallocs) == 1 and norm(reallocs[0]["a"][1], [(lambda e: e.get("k") == "Ref" and e.get("id") == rsz_p, "SIZE")], rz_syms) == alloc_norm
     hdr2 = any(n.get("k") == "Bin" and n["op"] == "=" and strip(n["x"]).get("k") == "Un" and strip(n["x"])["op"] == "*"
                and strip(n["y"]).get("k") == "Ref" and strip(n["y"])["id"] == rsz_p for n in walk(rz.body))
     if ok and hdr2:
@@ -134,11 +142,11 @@ def check_blobclose(prog, res):
     def report(c, st, node):
         frees.append((c, st, node))
 
-    ir.run_paths(f, WipeClient(report))
+    ir.run_paths(f, WipeClient(report, cl_syms))
     if not frees:
         raise AnalysisBroken("blobClose: no memFree call reached")
     for c, st, node in frees:
-        ptr = norm(c["a"][0], ())
+        ptr = norm(c["a"][0], (), cl_syms)
         want_len = alloc_norm.replace("SIZE", "*(%s)" % ptr)
         hit = [p for p in st if p[0] == ptr]
         good = [p for p in hit if p[1] == want_len]
